@@ -92,6 +92,17 @@ def generate(rng, tier):
             # refresh shortly after (within / beyond the browser delay): keeps or moves the slot
             ops.append(_ptr(t + rng.choice([0.5, 0.999, 1.0, 5.0, 9.999, 10.001, 30.0, 61.0]), ty, name, ttl))
         t += rng.choice([0.0, 0.001, 1.0, 10.0, 40.0, 300.0, 900.0, 2000.0]) * rng.random()
+    if nb == 1 and len(browsers[0]["types"]) >= 2 and sub is None and rng.random() < 0.25:
+        # two short-lived pointers of different types whose steps interleave under a long delay: each one's query makes
+        # the other one's late by almost the whole delay (the last step then has less than 10 % of the TTL left)
+        browsers[0]["delay"] = rng.choice([57000, 59000, 60000])
+        for o in ops:
+            if o["op"] == "browse":
+                o["delay"] = browsers[0]["delay"]
+        tt = rng.choice([20.0, 200.0]) + rng.random()
+        ta, tb = browsers[0]["types"][0], browsers[0]["types"][1]
+        ops.append(_ptr(tt, ta, f"Pa.{ta}", rng.choice([60, 1125, 1200])))
+        ops.append(_ptr(tt + 112.5 - rng.choice([0.5, 2.0, 3.5, 10.0, 55.0]), tb, f"Pb.{tb}", rng.choice([1125, 1200])))
     for b in browsers:
         if rng.random() < 0.25:
             ops.append({"t": round(rng.choice([5.0, 100.0, 900.0, 1500.0, 3000.0]) + rng.random(), 6), "op": "cancel",
@@ -325,7 +336,24 @@ def _oracle(w, drv, sc, model, updates, out):
                     dl_k = lo_k + delay
                     if lo_k < t_startup_end + delay:
                         dl_k = max(dl_k, t_startup_end + 2 * delay)
-                    if dl_k + SLACK >= min(seg_end, expiry) or kstep > 2:
+                    if kstep > 2:
+                        break
+                    if dl_k + SLACK >= min(seg_end, expiry):
+                        # the step's latest instant lies beyond the record's expiry. It is owed all the same when nothing
+                        # holds it back that long: for a record that was never refreshed (its slot is its own 75 % point)
+                        # the step is due at lo_k, or - when the browser asked something less than `delay` before - as
+                        # soon as the minimum time between its queries allows
+                        if k == 0 and lo_k >= t_startup_end + delay:
+                            lim = min(seg_end, expiry)
+                            # (a record that was never refreshed has its own 75 % point as slot: no step comes early)
+                            asked = any(lo_k - SLACK <= t < lim for t in tq)
+                            later = [t for t, qs in passes if lo_k + SLACK <= t < lim - SLACK and ident[0] not in qs]
+                            if later and not asked:
+                                out.add("C10.no-rescue-query", f"browser {b['id']}: PTR {ident[3]} (ttl {ttl}, current from "
+                                        f"{w.rel(c):.3f}, never refreshed) was not asked for at {75 + 10 * kstep} % of its TTL "
+                                        f"({w.rel(lo_k):.3f}) or later, although the browser sent a query for another type at "
+                                        f"{w.rel(later[0]):.3f}, when the step was due; expiry at {w.rel(expiry):.3f}; queries "
+                                        f"for the type at {[round(w.rel(t), 3) for t in tq][-8:]}", step=kstep, strict=True)
                         break
                     # (a kept refresh slot may lie up to `delay` before the record's own 75 % point, and its steps with it)
                     if not any(lo_k - delay - SLACK <= t <= dl_k + SLACK for t in tq):
